@@ -130,7 +130,8 @@ class LiftRunner:
         from sc3.synth.ugen import ChannelList
         import operator
         self.bi, self.fn, self.stm, self.utl, self.operator = bi, fn, stm, utl, operator
-        self.Operand, self.Pseq, self.ChannelList = Operand, lsp.Pseq, ChannelList
+        from sc3.seq.patterns import funcpatterns as fnp
+        self.Operand, self.Pseq, self.ChannelList, self.Pfunc = Operand, lsp.Pseq, ChannelList, fnp.Pfunc
         self.Sym, self.term_of = make_sym()
 
     def scalar(self, d):
@@ -158,6 +159,12 @@ class LiftRunner:
             return self.stm.stream(self.Pseq([self.scalar(i) for i in d[1]]))
         if k == 'pat':
             return self.Pseq([self.scalar(i) for i in d[1]])
+        if k in ('fstrm', 'fpat'):           # values depend on the input value: item k = at(tag, inval_k)
+            tag, Sym = d[1], self.Sym
+
+            def nxt(inval):
+                return Sym(['at', f's:{tag}', self.term_of(inval)])
+            return self.stm.FunctionStream(nxt) if k == 'fstrm' else self.Pfunc(nxt)
         if k == 'list':
             return [self.build(i) for i in d[1]]
         if k == 'tuple':
@@ -215,9 +222,9 @@ class LiftRunner:
 
             def pull():
                 out = []
-                for _ in range(case.get('take', 8)):
-                    try:
-                        out.append(self.observe_value(s.next()))
+                for k in range(case.get('take', 8)):
+                    try:                       # the k-th pull passes the input value i<k>
+                        out.append(self.observe_value(s.next(self.Sym(f's:i{k}'))))
                     except stm.StopStream:
                         out.append('stop')
                         break
@@ -251,7 +258,7 @@ class LiftRunner:
     def run(self, case):
         import json
         # a stream operand is a shared, stateful object: embedding the pattern again would continue it
-        self._embed_ok = '"strm"' not in json.dumps(case.get('args'))
+        self._embed_ok = 'strm' not in json.dumps(case.get('args'))
         try:
             return self.observe(self.apply(case), case)
         except Exception as e:
@@ -272,6 +279,10 @@ class LiftRunner:
             return self.stm.stream(self.Pseq([parse_num(i[1]) for i in d[1]]))
         if k == 'pat':
             return self.Pseq([parse_num(i[1]) for i in d[1]])
+        if k in ('fstrmn', 'fpatn'):         # item = inval * a + b
+            a, b = parse_num(d[1]), parse_num(d[2])
+            return self.stm.FunctionStream(lambda inval: inval * a + b) if k == 'fstrmn' \
+                else self.Pfunc(lambda inval: inval * a + b)
         if k == 'list':
             return [self.build_numeric(i) for i in d[1]]
         if k == 'tuple':
@@ -302,9 +313,9 @@ class LiftRunner:
 
             def pull():
                 out, ended = [], False
-                for _ in range(take):
-                    try:
-                        out.append(self.deep_eval(s.next(), x0, take, check))
+                for k in range(take):
+                    try:                       # the k-th pull passes the input value k + 1
+                        out.append(self.deep_eval(s.next(float(k + 1)), x0, take, check))
                     except self.stm.StopStream:
                         ended = True
                         break
@@ -377,7 +388,7 @@ class LiftRunner:
         """-> {'lifted': …, 'direct': …}: the composed object evaluated at x0, and the numeric
         selector applied directly to the evaluated operands."""
         import json
-        self._embed_ok = '"strm"' not in json.dumps(case.get('args'))
+        self._embed_ok = 'strm' not in json.dumps(case.get('args'))
         take = case.get('take', 8)
         x0 = parse_num(case['x0'])
         out = {}
